@@ -192,7 +192,20 @@ def consumers(ctx, rule='A5c'):
            'decode returns values and activeness of the non-fixed variables only (what is returned is selected by '
            'membership in the fixed-value table)',
            '; '.join(f'{f_.qualname} L{c.lineno} `{short(c)}`' for f_, c in governing[:3]) or 'no such test')
-    ok = 'is_fixed[i_dec] = i_dv in self._fixed_values' in t
+    # in a loop over enumerate(_sel_choice_idx_map) (here or in a private helper) the flag of the *choice* is set
+    # from membership of the *design-vector* index in the fixed-value table
+    from ..rules import indexspace as _ixs
+    ok = False
+    for u in unit_functions(ctx.prog, m):
+        _, dv_names = _ixs._spaces(ctx.prog, m, u)
+        for counter, elem, scope in _ixs._loops(u):
+            for a in ast.walk(scope):
+                if isinstance(a, ast.Assign) and isinstance(a.targets[0], ast.Subscript) and \
+                        norm(a.targets[0].slice) == elem and isinstance(a.value, ast.Compare) and \
+                        len(a.value.ops) == 1 and isinstance(a.value.ops[0], ast.In) and \
+                        norm(a.value.left) == counter and norm(a.value.comparators[0]) in dv_names and \
+                        'fixed' in norm(a.value.comparators[0]):
+                    ok = True
     ctx.ob(rule, fkey(m, rule, 'decode-is-fixed-flags'), ok, m.where,
            'the analyzer is told which selection choices are fixed (so that correction never moves them)', '')
     m, t = src('get_all_discrete_x')
